@@ -29,6 +29,14 @@ Fixpoint ufind (c : N) (m : umap) : option (list N) :=
       end
   end.
 
+(* every stored entry satisfies P *)
+Fixpoint uforall (P : N -> list N -> bool) (m : umap) : bool :=
+  match m with
+  | ULeaf => true
+  | UNode l k v r => P k v && uforall P l && uforall P r
+  end.
+
+
 (* ---- Python exceptions the model can exhibit ------------------------------------------- *)
 Inductive exn :=
 | IndexError | ValueError | AttributeError | TypeError | StopIteration
